@@ -73,7 +73,7 @@ def classes(case):
 
 @st.composite
 def _cases(draw, deep=False):
-    spec = draw(models.model_specs())
+    spec = draw(models.model_specs(open_patterns=True))
     j = draw(trees.wf_trees(spec, max_nodes=14 if deep else 8, deep=deep))
     opts = [pick(draw, OPTS), pick(draw, OPTS)]
     meta = draw(trees.metadata()) if draw(st.integers(0, 3)) == 0 else {}
